@@ -188,10 +188,11 @@ func isPlainGet(op *etcdserverpb.RequestOp, key []byte) bool {
 		r.MinCreateRevision == 0 && r.MaxCreateRevision == 0
 }
 
-// pointDelete returns the delete op if it deletes exactly one key
+// pointDelete returns the delete op if it deletes exactly one key and asks for nothing the answer of the
+// supported delete shapes cannot give (prev_kv would have to come back in a delete response)
 func pointDelete(op *etcdserverpb.RequestOp) *etcdserverpb.DeleteRangeRequest {
 	d := op.GetRequestDeleteRange()
-	if d != nil && len(d.RangeEnd) == 0 {
+	if d != nil && len(d.RangeEnd) == 0 && !d.PrevKv {
 		return d
 	}
 	return nil
